@@ -472,20 +472,38 @@ def is_throw_if(s):
     return s[0] == "if" and len(s[2]) == 1 and s[2][0] == ("throw",)
 
 
+EXPECTED = {"bernoulli": ["p"], "uniform": ["lower", "upper"], "normal": ["mean", "sd"], "log_normal": ["mean", "sd"]}
+INIT_FIELDS = {"Constant": 1, "Uniform": 2, "Normal": 2, "Identity": 0, "XavierUniform": 1, "XavierNormal": 1,
+               "XavierUniformConv2D": 1, "XavierNormalConv2D": 1}
+
+
+def device_unsupported(fname, why, text):
+    """Device::<fname> outside the subset: opaque definitions with the expected signature."""
+    fl = EXPECTED[fname[len("random_"):]]
+    args = " ".join("(%s : α)" % n for n in fl)
+    ty = " → ".join(["α"] * len(fl) + ["Shape", "ν"])
+    return ["-- %s" % why,
+            "def guard_%s {α : Type} (S : Sc α) %s : Bool :=\n  unsupportedBool %s" % (fname, args, lstr(text)),
+            "def Device_%s {α ν : Type} (S : Sc α) (%s_impl : %s) (shape : Shape) %s : R ν :=\n  unsupportedVal %s"
+            % (fname, fname, ty, args, lstr(text))]
+
+
 # device.cc ---------------------------------------------------------------
 def gen_device(src, fname):
     r = find_function(src, r"\bTensor\s+Device\s*::\s*%s" % fname)
     if not r:
-        return ["def guard_%s {α : Type} (S : Sc α) : Bool := unsupportedBool %s" % (fname, lstr("Device::%s not found" % fname))], None
+        return device_unsupported(fname, "not found", "Device::%s not found" % fname), None
     params, body, whole = r
     out = []
     try:
         ps = parse_params(params)
         if not ps or ps[0] != ("shape", "shape") or any(t != "f32" for t, _ in ps[1:]):
             raise Unsupported("parameters")
+        if [n for _, n in ps[1:]] != EXPECTED[fname[len("random_"):]]:
+            raise Unsupported("parameter names")
         ss = parse_body(body)
     except Unsupported as e:
-        return ["-- %s" % e, "def guard_%s {α : Type} (S : Sc α) : Bool := unsupportedBool %s" % (fname, lstr(norm(whole)))], None
+        return device_unsupported(fname, str(e), norm(whole)), None
     fl = [n for _, n in ps[1:]]
     env = {n: (ident(n), "f32") for n in fl}
     guards = [s for s in ss if is_throw_if(s)]
@@ -517,7 +535,7 @@ def gen_device(src, fname):
                    "  if guard_%s S %s then throwError else pure (%s %s shape)"
                    % (fname, impl, ty, args, fname, " ".join(map(ident, fl)), impl, call))
     else:
-        out.append("def Device_%s {α ν : Type} [Inhabited ν] (S : Sc α) (%s : %s) (shape : Shape) %s : R ν :=\n"
+        out.append("def Device_%s {α ν : Type} (S : Sc α) (%s : %s) (shape : Shape) %s : R ν :=\n"
                    "  unsupportedVal %s" % (fname, impl, ty, args, lstr(norm(whole))))
     return out, fl
 
@@ -540,7 +558,8 @@ def gen_fill(src, kind):
     r = find_function(src, r"\bvoid\s+%s" % fname)
     bad = lambda why, whole: ["-- %s" % why,
                               "def %s_dist : String × List String := (%s, [])" % (fname, lstr("unsupported")),
-                              "def %s_elem {α : Type} [Inhabited α] (S : Sc α) (draw : α) : α := unsupportedVal %s" % (fname, lstr(whole))]
+                              "def %s_elem {α : Type} (S : Sc α) %s (draw : α) : α :=\n  unsupportedScalar S %s"
+                              % (fname, " ".join("(%s : α)" % n for n in EXPECTED[kind]), lstr(whole))]
     if not r:
         return bad("not found", fname + " not found")
     params, body, whole = r
@@ -549,6 +568,8 @@ def gen_fill(src, kind):
         if len(ps) < 3 or ps[-2] != ("size", "size") or ps[-1] != ("f32", "data") or any(t != "f32" for t, _ in ps[:-2]):
             raise Unsupported("parameters")
         fl = [n for _, n in ps[:-2]]
+        if fl != EXPECTED[kind]:
+            raise Unsupported("parameter names")
         ss = parse_body(body)
         if not ss or ss[0][0] != "dist" or ss[0][2] != "dist" or ss[-1][0] != "for" or ss[-1][2] != "size":
             raise Unsupported("body shape")
@@ -639,7 +660,8 @@ def gen_init(hsrc, csrc, cls):
     fields = class_fields(hsrc, cls)
     r = find_function(csrc, r"\bvoid\s+%s\s*::\s*apply" % cls)
     if fields is None or not r:
-        return ["def %s {α : Type} (S : Sc α) (x_shape : Shape) : R (InitAction α) := pure (.unsupported %s)" % (name, lstr(cls + " not found"))]
+        args = "".join(" (f%d : α)" % i for i in range(INIT_FIELDS[cls]))
+        return ["def %s {α : Type} (S : Sc α)%s (x_shape : Shape) : R (InitAction α) := pure (.unsupported %s)" % (name, args, lstr(cls + " not found"))]
     params, body, whole = r
     args = "".join(" (%s : α)" % ident(f) for f in fields)
     head = "def %s {α : Type} (S : Sc α)%s (x_shape : Shape) : R (InitAction α) :=" % (name, args)
@@ -686,7 +708,7 @@ def gen_dropout(src):
     head = "def dropout {α ν : Type} (S : Sc α) (V : VarOps α ν) (x : ν) (rate : α) (enabled : Bool) : R ν :="
     r = find_function(src, r"\bdropout")
     if not r:
-        return [head.replace("{α ν : Type}", "{α ν : Type} [Inhabited ν]"), "  unsupportedVal %s" % lstr("dropout not found")]
+        return [head, "  unsupportedVal %s" % lstr("dropout not found")]
     params, body, whole = r
     try:
         ps = parse_params(params)
@@ -722,7 +744,7 @@ def gen_dropout(src):
                 raise Unsupported("statement")
         if not done: raise Unsupported("no return")
     except Unsupported as e:
-        return ["-- %s" % e, head.replace("{α ν : Type}", "{α ν : Type} [Inhabited ν]"), "  unsupportedVal %s" % lstr(norm(whole))]
+        return ["-- %s" % e, head, "  unsupportedVal %s" % lstr(norm(whole))]
     return ["/-- `functions::dropout` (contrib/functions.h). -/", head] + ["  " + l for l in lines]
 
 
